@@ -365,26 +365,40 @@ pub struct Variant {
     /// the instance's sdoId and domain number (default 0/0; every third worker runs 0x1a5 / 7)
     pub sdo: u16,
     pub domain: u8,
+    /// bit 2 of the worker index (decides `swap`, for C12 `p2p`)
+    pub alt: bool,
 }
 
 impl Variant {
     pub fn from_index(first: u64, prop: &str) -> Variant {
         let alt = (first / 4) % 2 == 1;
         let other_domain = first % 3 == 1;
-        Variant { path_trace: first % 2 == 1, udp: (first / 2) % 2 == 1, swap: alt && prop != "C12", p2p: alt && prop == "C12", sdo: if other_domain { 0x1a5 } else { 0 }, domain: if other_domain { 7 } else { 0 } }
+        Variant { path_trace: first % 2 == 1, udp: (first / 2) % 2 == 1, swap: alt && prop != "C12", p2p: (alt && prop == "C12") || prop == "C14", sdo: if other_domain { 0x1a5 } else { 0 }, domain: if other_domain { 7 } else { 0 }, alt }
     }
     pub fn index(&self) -> u64 {
-        self.path_trace as u64 + 2 * self.udp as u64 + 4 * (self.swap || self.p2p) as u64
+        self.path_trace as u64 + 2 * self.udp as u64 + 4 * self.alt as u64
     }
     pub fn from_render(v: &Value, prop: &str) -> Variant {
         let alt = v["variant_alt"].as_bool().unwrap_or(false);
-        let mut var = Variant { path_trace: v["path_trace"].as_bool().unwrap_or(false), udp: v["transport"].as_str() == Some("udp-ipv4"), swap: alt && prop != "C12", p2p: alt && prop == "C12", sdo: 0, domain: 0 };
+        let mut var = Variant { path_trace: v["path_trace"].as_bool().unwrap_or(false), udp: v["transport"].as_str() == Some("udp-ipv4"), swap: alt && prop != "C12", p2p: (alt && prop == "C12") || prop == "C14", sdo: 0, domain: 0, alt };
         // sdoId / domain are a function of the worker index
         let again = Variant::from_index(var.index(), prop);
         var.sdo = again.sdo;
         var.domain = again.domain;
         var
     }
+}
+
+/// what the harness does with one Pdelay_Req of the daemon
+#[derive(Clone, Copy, Debug, PartialEq)]
+pub enum PdAnswer {
+    /// responder R1 answers (two-step or one-step) with this turnaround time (t3 - t2, ns; may be negative to emulate
+    /// a longer link)
+    Clean { two_step: bool, turnaround_ns: i64 },
+    /// responder R1 and a second responder R2 both answer
+    TwoResponders,
+    /// nobody answers
+    Silent,
 }
 
 pub struct World {
@@ -402,6 +416,11 @@ pub struct World {
     pub gm_epoch_ns: u128,
     sync_seq: u16,
     pub delay_resps_sent: u64,
+    /// how the harness answers the Pdelay_Req frames of the daemon's port on the parent's segment (P2P variant)
+    pub pd_plan: VecDeque<PdAnswer>,
+    pub pd_default: Option<PdAnswer>,
+    /// (request id, expected 2 x peer delay in ns from the harness's own timestamps, what was done)
+    pub pd_log: Vec<(u16, Option<i128>, PdAnswer)>,
     /// poll the observation socket this often from the event loop and apply `obs_invariants` (problems collected)
     pub poll_obs_ms: Option<u64>,
     next_poll: Instant,
@@ -503,6 +522,9 @@ impl World {
             gm_epoch_ns: now_ns(),
             sync_seq: 0,
             delay_resps_sent: 0,
+            pd_plan: VecDeque::new(),
+            pd_default: None,
+            pd_log: vec![],
             poll_obs_ms: None,
             next_poll: Instant::now(),
             obs_polls: 0,
@@ -599,6 +621,44 @@ impl World {
                 }
                 if matches!(m.header.msg_type, T_ANNOUNCE | T_SYNC | T_FOLLOW_UP) && m.header.source.clock == self.own_identity {
                     self.seen_a_master_traffic += 1;
+                }
+                if m.header.msg_type == T_PDELAY_REQ && m.header.source.clock == self.own_identity {
+                    if let Some(ans) = self.pd_plan.pop_front().or(self.pd_default) {
+                        let r1 = PortId { clock: [0x00, 0x1b, 0x19, 0xcc, 0, 0, 0, 0x21], port: 1 };
+                        let r2 = PortId { clock: [0x00, 0x1b, 0x19, 0xcc, 0, 0, 0, 0x22], port: 1 };
+                        let mut expect = None;
+                        let mut answer = |w: &mut World, who: PortId, two_step: bool, turnaround: i64| -> Option<u128> {
+                            let t2 = at_a; // kernel receive time of the request = requestReceiptTimestamp
+                            if two_step {
+                                let mut r = RMsg::new(T_PDELAY_RESP, who, m.header.seq, RBody::PdelayResp { receipt: RTs::from_ns(t2), requesting: m.header.source });
+                                r.header.set_flag(F_TWO_STEP, true);
+                                let sent = w.a1.send_ts(&r.encode());
+                                let t3 = (t2 as i128 + turnaround as i128).max(0) as u128;
+                                let f = RMsg::new(T_PDELAY_RESP_FUP, who, m.header.seq, RBody::PdelayRespFup { response_origin: RTs::from_ns(t3), requesting: m.header.source });
+                                w.a1.send(&f.encode());
+                                sent
+                            } else {
+                                let mut r = RMsg::new(T_PDELAY_RESP, who, m.header.seq, RBody::PdelayResp { receipt: RTs::default(), requesting: m.header.source });
+                                r.header.correction = turnaround << 16;
+                                w.a1.send_ts(&r.encode())
+                            }
+                        };
+                        match ans {
+                            PdAnswer::Clean { two_step, turnaround_ns } => {
+                                if let Some(sent) = answer(self, r1, two_step, turnaround_ns) {
+                                    // 2 x delay as the daemon must compute it: (t4 - t1) - (t3 - t2), with t1 ~ the kernel
+                                    // arrival of the request here and t4 ~ the kernel departure of the response
+                                    expect = Some(sent as i128 - at_a as i128 - turnaround_ns as i128);
+                                }
+                            }
+                            PdAnswer::TwoResponders => {
+                                answer(self, r1, true, 1000);
+                                answer(self, r2, true, 1000);
+                            }
+                            PdAnswer::Silent => {}
+                        }
+                        self.pd_log.push((m.header.seq, expect, ans));
+                    }
                 }
                 if m.header.msg_type == T_DELAY_REQ && m.header.source.clock == self.own_identity {
                     self.seen_a_delay_req.push(m.header.seq);
@@ -727,6 +787,29 @@ impl World {
                 Some(k) => num[..k].to_string(),
                 None => num.trim_end_matches('+').to_string(),
             };
+            if let Ok(x) = num.parse::<f64>() {
+                v.push(x);
+            }
+        }
+        v
+    }
+
+    /// peer-delay values (ns) of the measurements the daemon logged after byte offset `mark` of its log
+    pub fn logged_peer_delays_since(&self, mark: u64) -> Vec<f64> {
+        use std::io::{Seek, SeekFrom};
+        let mut v = vec![];
+        let Ok(mut f) = std::fs::File::open(self.dir.join("daemon.log")) else { return v };
+        if f.seek(SeekFrom::Start(mark)).is_err() {
+            return v;
+        }
+        let mut bytes = vec![];
+        if f.read_to_end(&mut bytes).is_err() {
+            return v;
+        }
+        for line in String::from_utf8_lossy(&bytes).lines() {
+            let Some(p) = line.find("peer_delay: Some(Duration { inner: ") else { continue };
+            let rest = &line[p + "peer_delay: Some(Duration { inner: ".len()..];
+            let num: String = rest.chars().take_while(|c| c.is_ascii_digit() || *c == '.' || *c == '-').collect();
             if let Ok(x) = num.parse::<f64>() {
                 v.push(x);
             }
@@ -1853,6 +1936,129 @@ pub fn case_c02(w: &mut World, t: &mut Tape) -> E2eOut {
     E2eOut { out, inconclusive: None }
 }
 
+// ---------------------------------------------------------------- C14 case (peer delay through the real daemon)
+
+/// One case on a daemon with peer-to-peer ports: (A) 3-8 of its Pdelay_Req are answered by one responder, one- or
+/// two-step, with generated turnaround times (negative ones emulate a longer link); every exchange must yield
+/// exactly one measurement, and its value - taken from the daemon's own log - must be ((t4-t1)-(t3-t2))/2 as computed
+/// from the harness's kernel timestamps, up to the latency of the veth pair (-5..+300 us); (B) one request is
+/// answered by two responders: the port must be Faulty in the next observation; (C) clean answers again: the port
+/// must leave Faulty after at most four of them.
+pub fn case_c14(w: &mut World, t: &mut Tape) -> E2eOut {
+    let mut out = CaseOut::new();
+    if !w.steady() {
+        let d = Instant::now() + Duration::from_millis(2500);
+        w.run_until(d);
+        if !w.steady() {
+            return E2eOut { out, inconclusive: Some(format!("daemon not in (Slave, Master) before the case: {:?}", w.port_states())) };
+        }
+    }
+    let n_clean = t.urange(3, 8) as usize;
+    let mut plan = vec![];
+    for _ in 0..n_clean {
+        let turnaround_ns: i64 = match t.below(4) {
+            0 => t.urange(500, 20_000) as i64,
+            1 => -(t.urange(10_000, 400_000) as i64),
+            2 => -(t.urange(400_000, 5_000_000) as i64),
+            _ => 0,
+        };
+        plan.push(PdAnswer::Clean { two_step: !t.chance(1, 3), turnaround_ns });
+    }
+    let with_fault = t.chance(2, 3);
+    let rendered = json!({"clean_exchanges": plan.iter().map(|p| format!("{:?}", p)).collect::<Vec<_>>(), "then_two_responders": with_fault});
+    out.render = rendered.clone();
+    let log_mark = std::fs::metadata(w.dir.join("daemon.log")).map(|m| m.len()).unwrap_or(0);
+    w.pd_log.clear();
+    w.pd_default = None;
+    w.pd_plan = plan.iter().copied().collect();
+    let t0 = Instant::now();
+    while w.pd_log.len() < n_clean && t0.elapsed() < Duration::from_millis(600 * n_clean as u64 + 1500) {
+        let d = Instant::now() + Duration::from_millis(50);
+        w.run_until(d);
+    }
+    let d = Instant::now() + Duration::from_millis(200);
+    w.run_until(d);
+    if !w.alive() {
+        out.fail("daemon exited", rendered.to_string());
+        return E2eOut { out, inconclusive: None };
+    }
+    if w.pd_log.len() < n_clean {
+        out.fail("daemon: peer-to-peer port does not send Pdelay_Req at its configured interval", format!("{} requests in {} ms ; {}", w.pd_log.len(), t0.elapsed().as_millis(), rendered));
+        return E2eOut { out, inconclusive: None };
+    }
+    let logged = w.logged_peer_delays_since(log_mark);
+    let expected: Vec<f64> = w.pd_log.iter().filter_map(|x| x.1).map(|e| e as f64 / 2.0).collect();
+    if expected.len() < n_clean {
+        return E2eOut { out, inconclusive: Some("no kernel transmit timestamp for one of the harness's responses".into()) };
+    }
+    let fits = |got: f64, exp: f64| got - exp >= -5_000.0 && got - exp <= 300_000.0;
+    if logged.len() != expected.len() {
+        out.fail("daemon: clean peer-delay exchanges and measurements taken do not correspond one to one", format!("{} exchanges answered by one responder, {} measurements logged: {:?} vs expected {:?} ; {}", expected.len(), logged.len(), logged, expected, rendered));
+    } else {
+        for (g, e) in logged.iter().zip(expected.iter()) {
+            if !fits(*g, *e) {
+                out.fail("daemon: peer delay is not ((t4-t1)-(t3-t2))/2 of the exchange", format!("measured {:.0} ns, from the harness's timestamps {:.0} ns (+ link latency) ; all: {:?} vs {:?} ; {}", g, e, logged, expected, rendered));
+                break;
+            }
+        }
+    }
+    if out.violation.is_some() || !with_fault {
+        out.nontrivial = Some(hash_of(&rendered.to_string()));
+        out.label("daemon:peer-delay");
+        return E2eOut { out, inconclusive: None };
+    }
+    // (B) two responders to one request
+    w.pd_log.clear();
+    w.pd_plan.push_back(PdAnswer::TwoResponders);
+    let t1 = Instant::now();
+    while w.pd_log.is_empty() && t1.elapsed() < Duration::from_millis(2000) {
+        let d = Instant::now() + Duration::from_millis(50);
+        w.run_until(d);
+    }
+    let mut faulty = false;
+    let f0 = Instant::now();
+    while f0.elapsed() < Duration::from_millis(600) {
+        let d = Instant::now() + Duration::from_millis(50);
+        w.run_until(d);
+        if w.port_states().map(|s| s.0.starts_with("Faulty")).unwrap_or(false) {
+            faulty = true;
+            break;
+        }
+    }
+    if !faulty {
+        out.fail("daemon: responses from two responders to one request did not make the port faulty", format!("states {:?} ; {}", w.port_states(), rendered));
+        return E2eOut { out, inconclusive: None };
+    }
+    out.label("daemon:two-responders");
+    // (C) recovery through clean exchanges
+    w.pd_log.clear();
+    w.pd_default = Some(PdAnswer::Clean { two_step: true, turnaround_ns: 1000 });
+    let r0 = Instant::now();
+    let mut recovered = false;
+    while r0.elapsed() < Duration::from_millis(4000) {
+        let d = Instant::now() + Duration::from_millis(50);
+        w.run_until(d);
+        if w.port_states().map(|s| !s.0.starts_with("Faulty")).unwrap_or(false) {
+            recovered = true;
+            break;
+        }
+        if w.pd_log.len() >= 5 {
+            break;
+        }
+    }
+    if !recovered && w.pd_log.len() >= 4 {
+        out.fail("daemon: port still faulty after four exchanges answered by exactly one responder", format!("states {:?} ; {}", w.port_states(), rendered));
+    }
+    // leave the daemon as the next case expects it
+    let d = Instant::now() + Duration::from_millis(1500);
+    w.run_until(d);
+    w.pd_default = None;
+    w.pd_plan.clear();
+    out.nontrivial = Some(hash_of(&rendered.to_string()));
+    out.label("daemon:peer-delay");
+    E2eOut { out, inconclusive: None }
+}
+
 // ---------------------------------------------------------------- worker / parent plumbing
 
 /// `vcheck E2E-WORKER <prop> <seed> <first> <count> <stride> [tape.json]`
@@ -1939,6 +2145,7 @@ pub fn worker_main(args: &[String]) -> i32 {
             "C12" => case_c12(&mut w, &mut tape),
             "C10" => case_c10(&mut w, &mut tape),
             "C02" => case_c02(&mut w, &mut tape),
+            "C14" => case_c14(&mut w, &mut tape),
             _ => {
                 println!("{}", json!({"fatal": format!("no end-to-end case for {}", prop)}));
                 return 2;
@@ -1958,7 +2165,7 @@ pub fn worker_main(args: &[String]) -> i32 {
         if let Some(o) = r.out.render.as_object_mut() {
             o.insert("path_trace".into(), json!(path_trace));
             o.insert("transport".into(), json!(if udp { "udp-ipv4" } else { "ethernet" }));
-            o.insert("variant_alt".into(), json!(variant.swap || variant.p2p));
+            o.insert("variant_alt".into(), json!(variant.alt));
             o.insert("slave_port".into(), json!(w.slave_idx + 1));
             o.insert("delay_mechanism".into(), json!(if variant.p2p { "P2P" } else { "E2E" }));
             o.insert("sdo_id".into(), json!(variant.sdo));
